@@ -171,12 +171,12 @@ example : Honest 5 [⟨2, true, .ok 5⟩, ⟨0, false, .err⟩, ⟨1, false, .ok
   simp only [List.mem_cons, List.not_mem_nil, or_false] at hr
   rcases hr with rfl | rfl | rfl <;> simp_all [Res.good]
 
-/-- … and in the world: every sub-store named by `holdersAtReturn` has the blob once the uploads that
-had arrived are applied (and keeps whatever it had) -/
+/-- … and in the world: every sub-store named by `holdersAtReturn` holds the blob WITH THE RIGHT SIZE once
+the uploads that had arrived are applied (whatever it held before, e.g. a truncated copy) -/
 theorem C12_holders_have_blob (subs : List Sub) (writes : List Nat) (min size : Nat) (arr : List Res)
     (k : Bytes) (i : Nat) (hi : i ∈ idsOf writes (holdersAtReturn min size arr)) (hlt : i < subs.length) :
-    ((storeAt subs (idsOf writes (holdersAtReturn min size arr)) (k, size)).getD i ⟨[], false⟩).store.has k = true :=
-  storeAt_has subs _ (k, size) i hi hlt
+    ((storeAt subs (idsOf writes (holdersAtReturn min size arr)) (k, size)).getD i ⟨[], false⟩).store.get? k = some size :=
+  storeAt_get subs _ (k, size) i hi hlt
 
 /-- distinct positions of a duplicate-free write list are distinct sub-stores -/
 theorem C12_holder_ids_distinct (writes ps : List Nat) (hw : writes.Nodup) (hp : ps.Nodup) :
@@ -205,7 +205,7 @@ theorem C12_ack_substores_hold (subs : List Sub) (writes : List Nat) (min size :
     (hidx : ∀ r ∈ arr, r.idx < writes.length) (hdistinct : (arr.map (·.idx)).Nodup)
     (hon : Honest size arr) (hack : (receiveBlob min size arr).isAck = true) :
     ∃ ids : List Nat, ids.Nodup ∧ min ≤ ids.length ∧ ∀ i ∈ ids, i ∈ writes ∧
-      ((storeAt subs (idsOf writes (holdersAtReturn min size arr)) (k, size)).getD i ⟨[], false⟩).store.has k = true := by
+      ((storeAt subs (idsOf writes (holdersAtReturn min size arr)) (k, size)).getD i ⟨[], false⟩).store.get? k = some size := by
   obtain ⟨hlen, hnd⟩ := C12_ack_replicas_hold arr min size h1 hon hdistinct hack
   obtain ⟨hnd', hmem⟩ := C12_holder_ids_distinct writes (holdersAtReturn min size arr) hw hnd
   refine ⟨idsOf writes (holdersAtReturn min size arr), hnd', ?_, ?_⟩
@@ -222,7 +222,7 @@ theorem C12_ack_substores_hold (subs : List Sub) (writes : List Nat) (min size :
 failure in between: acknowledged after the third result, sub-stores 0 and 2 hold the blob -/
 example : (receiveBlob 2 5 [⟨1, true, .ok 5⟩, ⟨2, false, .err⟩, ⟨0, true, .ok 5⟩]).isAck = true ∧
     idsOf [2, 0, 1] (holdersAtReturn 2 5 [⟨1, true, .ok 5⟩, ⟨2, false, .err⟩, ⟨0, true, .ok 5⟩]) = [0, 2] ∧
-    ((storeAt (List.replicate 4 ⟨[], false⟩) [0, 2] ([7], 5)).getD 2 ⟨[], false⟩).store.has [7] = true := by
+    ((storeAt (List.replicate 4 ⟨[([7], 4)], false⟩) [0, 2] ([7], 5)).getD 2 ⟨[], false⟩).store.get? [7] = some 5 := by
   decide
 
 /-- `ReceiveBlob` returns at quorum: it does NOT wait for the remaining replicas (here replica 1 is
@@ -313,6 +313,20 @@ theorem C12_stat_exactly_once (reads : List Sub) (blobs : List Bytes) (reports :
 example : (statBlobs [⟨[([1], 4), ([2], 5)], false⟩, ⟨[([2], 5), ([3], 6)], false⟩] [[2], [3], [2], [7]]
     [([2], 5), ([3], 6), ([2], 5), ([2], 5), ([2], 5)]).1 = [([2], 5), ([3], 6)] := by decide
 
+/-- when the replicas disagree about a blob's size (one of them holds a truncated copy) the size
+reported is the one of SOME reachable read replica – which one depends on the delivery order (first
+reporter wins); the key is still reported exactly once (`C12_stat_exactly_once`) -/
+theorem C12_stat_entry_held (reads : List Sub) (blobs : List Bytes) (reports : List SR)
+    (hperm : reports.Perm (seqReports reads blobs)) (e : SR) (he : e ∈ (statBlobs reads blobs reports).1) :
+    ∃ s ∈ reads, s.down = false ∧ s.store.get? e.1 = some e.2 := by
+  have h1 : e ∈ seqReports reads blobs := hperm.mem_iff.mp (statFold_subset reports blobs e he)
+  simp only [seqReports, List.mem_flatMap, List.mem_filter] at h1
+  obtain ⟨s, ⟨hs, hup⟩, hmem⟩ := h1
+  exact ⟨s, hs, by simpa using hup, mem_statReports s blobs e hmem⟩
+
+example : (statBlobs [⟨[([2], 4)], false⟩, ⟨[([2], 5)], false⟩] [[2]] [([2], 5), ([2], 4)]).1 = [([2], 5)] ∧
+    (statBlobs [⟨[([2], 4)], false⟩, ⟨[([2], 5)], false⟩] [[2]] [([2], 4), ([2], 5)]).1 = [([2], 4)] := by decide
+
 /-- non-vacuity: an interleaving of two replicas' reports is a permutation of their concatenation -/
 example : [(([2] : Bytes), 5), ([2], 5), ([1], 4), ([3], 6)].Perm
     (seqReports [⟨[([1], 4), ([2], 5)], false⟩, ⟨[([2], 5), ([3], 6)], false⟩, ⟨[([9], 1)], true⟩] [[1], [2], [3], [9]]) := by
@@ -363,6 +377,23 @@ example : StoresAsc [⟨[([1], 4), ([2], 5)], false⟩, ⟨[([2], 5), ([3], 6)],
   decide
 example : enumerateBlobs [⟨[([1], 4), ([2], 5)], false⟩, ⟨[([2], 5), ([3], 6)], false⟩,
     ⟨[([1], 4), ([3], 6), ([4], 1)], false⟩] (some [1]) 2 = [([2], 5), ([3], 6)] := by decide
+
+/-- two read replicas holding the same ref with different sizes (a truncated copy): the ref is still
+enumerated once, with the entry of the first source that has it (`merged_first_source`) -/
+example : enumerateBlobs [⟨[([1], 4), ([2], 3)], false⟩, ⟨[([2], 5), ([3], 6)], false⟩] none 10
+    = [([1], 4), ([2], 3), ([3], 6)] := by decide
+
+/-- every entry enumerated is the entry of the first read replica (in read order) that holds its ref -/
+theorem C12_enumerate_first_source (reads : List Sub) (h : StoresAsc reads) (limit : Nat) (e : SR)
+    (he : e ∈ enumerateBlobs reads none limit) :
+    ∃ pre s post, reads.map Sub.store = pre ++ s :: post ∧ e ∈ s ∧ ∀ t ∈ pre, e.1 ∉ keys t := by
+  have e1 : enumerateBlobs reads none limit = mergedEnumerate limit (reads.map Sub.store) := by
+    unfold enumerateBlobs mergedEnumerateStorage
+    have : (reads.map Sub.store).map (fun c => sourceEnum c none limit) =
+        (reads.map Sub.store).map (·.take limit) := by simp [sourceEnum]
+    rw [this, merged_take_limit limit _ h]
+  rw [e1] at he
+  exact merged_first_source limit _ h e he
 
 /-- receiving and removing keep every sub-store strictly ascending (so the hypothesis of
 `C12_enumerate_exactly_once` holds in every reachable world) -/
